@@ -1,7 +1,7 @@
 (* C03/Props.v - property-level theorems only (statements + `exact`), each followed by Print Assumptions.
    Tags [FULL]/[PARTIAL]/[REFUTED] are read by bin/check. *)
 From Coq Require Import List ZArith Bool Permutation.
-From BLB Require Import C03.Model C03.Proofs C03.Layer.
+From BLB Require Import C03.Model C03.Proofs C03.Complete C03.Layer.
 Import ListNotations.
 Open Scope Z_scope.
 
@@ -21,6 +21,16 @@ Theorem check_history_sound_linearizable :
   forall h, check_history h = true -> linearizable h.
 Proof. intros h H. apply replicated_linearizable_linearizable, check_history_sound_lemma, H. Qed.
 Print Assumptions check_history_sound_linearizable.
+
+(* [FULL] no false alarms: the checker is complete. For every history with pairwise distinct operation ids, if
+   ANY total order witnesses replicated linearizability - whatever it is, it need not be given - then the checker
+   accepts, using the longest recorded replica state as its own witness; so every rejection, with whatever verdict
+   code, is a real violation of the specification, and the internal verdict 13 is unreachable. The sequential
+   specification is the revealing state machine, which is what makes the log order the only possible witness *)
+Theorem check_history_complete_for_revealing_fsm :
+  forall h, NoDup (map oid (hops h)) -> replicated_linearizable h -> check_history h = true.
+Proof. exact check_history_complete_lemma. Qed.
+Print Assumptions check_history_complete_for_revealing_fsm.
 
 (* [FULL] the state machine is revealing: in ANY two linearizations of a history an acknowledged operation has the
    same number of commands before it, namely the number its result reveals; so the linearization order of the
